@@ -169,11 +169,15 @@ structure Mv (h h' : HalfLock.Sys) (t : Nat) (cmd : Option HalfLock.Cmd) (o : Ha
   others : ∀ j, j ≠ t → phaseAt h' j = phaseAt h j
   eff : Eff h h' t o
   tr : PhaseTr h cmd (phaseAt h t) (phaseAt h' t) o
+  pre : (phaseAt h t = .idle ∨ ∃ u, phaseAt h t = .rPre u) →
+    ((∃ u, phaseAt h' t = .rPre u) ∨ ∃ q u, phaseAt h' t = .rHold q u) →
+    HalfLock.preA (pcAt h' t) + 1 = HalfLock.preA (pcAt h t)
 
 theorem mv_step {ye : Nat} {h h' : HalfLock.Sys} {t : Nat} {o : HalfLock.Obs}
     (hinv : HalfLock.Inv h) (hns : NoScripts h) (hs : HalfLock.step ye h t = some (h', o)) :
     Mv h h' t none o := by
-  refine ⟨HalfLock.inv_step _ _ _ _ _ hinv hs, ?_, HalfLock.step_len hs, ?_, HalfLock.step_eff hs, ?_⟩
+  refine ⟨HalfLock.inv_step _ _ _ _ _ hinv hs, ?_, HalfLock.step_len hs, ?_, HalfLock.step_eff hs, ?_,
+    fun hp hp' => HalfLock.step_preA hs hp hp'⟩
   · apply HalfLock.step_noScripts hs
     · intro j th _ hj; exact hns j th hj
     · intro th hth; rw [hns t th hth]; simp
@@ -197,8 +201,14 @@ theorem mv_begin {ye : Nat} {h h' : HalfLock.Sys} {t : Nat} {o : HalfLock.Obs} {
     have hget0 : ({ h with threads := h.threads.set t { h.threads[t] with script := [c] } } : HalfLock.Sys).threads[t]? =
         some { h.threads[t] with script := [c] } := by simp [hlt]
     have e := HalfLock.step_eff hs
+    have hpre : (phaseAt h t = .idle ∨ ∃ u, phaseAt h t = .rPre u) →
+        ((∃ u, phaseAt h' t = .rPre u) ∨ ∃ q u, phaseAt h' t = .rHold q u) →
+        HalfLock.preA (pcAt h' t) + 1 = HalfLock.preA (pcAt h t) := by
+      intro hp hp'
+      have := HalfLock.step_preA hs (Or.inl (by simp [phaseAt, pcAt, hlt, hpc, HalfLock.Pc.phase])) hp'
+      rw [this]; simp [pcAt, hlt, hth]
     refine ⟨HalfLock.inv_step _ _ _ _ _ hinv0 hs, ?_, ?_, ?_,
-      ⟨e.data, e.live, e.freed, e.nextSnap, e.mutex, e.allocId, e.swapOld, e.loadData⟩, ?_⟩
+      ⟨e.data, e.live, e.freed, e.nextSnap, e.mutex, e.allocId, e.swapOld, e.loadData⟩, ?_, hpre⟩
     · apply HalfLock.step_noScripts hs
       · intro j x hj hx
         simp only [List.getElem?_set, hj.symm, if_false] at hx
